@@ -43,25 +43,50 @@ pub fn unhex(s: &str) -> Vec<u8> {
         .collect()
 }
 
-/// Sample models from the repository (read once).
+/// Base inputs for byte-level mutation: the committed seed corpus of the two
+/// fuzz targets (small generated models plus the repository's 592-byte .rten
+/// sample) and the ONNX sample models of the repository (read once).
 pub struct Samples {
-    pub items: Vec<(Fmt, &'static str, Vec<u8>)>,
+    pub items: Vec<(Fmt, String, Vec<u8>)>,
+}
+
+pub fn corpus_dir(fmt: Fmt) -> std::path::PathBuf {
+    vcore::verif_root().join("corpus").join(match fmt {
+        Fmt::Onnx => "model_load_onnx",
+        Fmt::Rten => "model_load_rten",
+    })
 }
 
 impl Samples {
     pub fn load() -> Samples {
-        let repo = std::path::Path::new("/repo");
         let mut items = Vec::new();
-        for (fmt, name, rel) in [
-            (Fmt::Rten, "model-load-file-test.rten", "model-load-file-test.rten"),
-            (Fmt::Onnx, "mnist-external/mnist.onnx", "rten-onnx/test-data/mnist-external/mnist.onnx"),
-            (Fmt::Onnx, "mnist.onnx", "rten-onnx/test-data/mnist.onnx"),
+        for fmt in [Fmt::Rten, Fmt::Onnx] {
+            let mut files: Vec<std::path::PathBuf> = std::fs::read_dir(corpus_dir(fmt))
+                .map(|rd| rd.filter_map(|e| e.ok()).map(|e| e.path()).collect())
+                .unwrap_or_default();
+            files.sort();
+            for f in files {
+                if let Ok(b) = std::fs::read(&f) {
+                    items.push((fmt, format!("corpus/{}", fmt.name()), b));
+                }
+            }
+        }
+        let repo = std::path::Path::new("/repo");
+        for (name, rel) in [
+            ("mnist-external/mnist.onnx", "rten-onnx/test-data/mnist-external/mnist.onnx"),
+            ("mnist.onnx", "rten-onnx/test-data/mnist.onnx"),
         ] {
             if let Ok(b) = std::fs::read(repo.join(rel)) {
-                items.push((fmt, name, b));
+                // weight the real models like the whole generated corpus
+                for _ in 0..6 {
+                    items.push((Fmt::Onnx, name.to_string(), b.clone()));
+                }
             }
         }
         Samples { items }
+    }
+    pub fn n_repo_models(&self) -> usize {
+        self.items.iter().filter(|(_, n, _)| !n.starts_with("corpus/")).count()
     }
 }
 
@@ -271,7 +296,9 @@ fn fuzz_dir() -> &'static std::path::PathBuf {
 pub fn fuzz_entry(fmt: Fmt, data: &[u8]) {
     static OK: std::sync::OnceLock<bool> = std::sync::OnceLock::new();
     assert!(*OK.get_or_init(crate::alloc::installed), "the counting allocator is not installed in this binary");
-    let out = run_case(fmt, data, Some(fuzz_dir()), std::env::var("VC_LOAD_FUZZ_NO_RUN").is_err(), &mut |_| {});
+    // parse-level oracle only: the phases that execute operators can exhaust
+    // memory or time legitimately and need the supervised workers of the stable harness
+    let out = run_case(fmt, data, Some(fuzz_dir()), std::env::var("VC_LOAD_FUZZ_EXEC").is_ok(), &mut |_| {});
     for (sig, detail) in &out.fails {
         if !is_known(sig) {
             panic!("C05 VIOLATION signature={sig} detail={detail}");
